@@ -21,6 +21,7 @@ def run(ctx):
     progs = list(gen.replays)
     ctx.extra["tlc_generated_trees"] = len(progs)
     progs += amlgen.all_variants(rng) + amlgen.all_pairs(rng)       # the same shapes again with seeded random arguments
+    progs += amlgen.all_leaf_sizes(rng)                               # every encoded-size class of every leaf kind in every slot
     if th:
         progs += amlgen.all_pairs(vlib.Rng(ctx.seed + 1)) + amlgen.all_pairs(vlib.Rng(ctx.seed + 2))
     for _ in range(20000 if th else 2500):
@@ -46,6 +47,8 @@ def run(ctx):
     for n in (1425, 1500):
         g = amlgen.G(rng)
         progs.append(amlgen.prog(g, {"t": "ResourceTemplate", "ch": [q8(g) for _ in range(n)]}, tag="template/%d" % n))
+    # the boundary objects again as children of a container: a length inside another length
+    progs += [amlgen.wrapped(p, i) for i, p in enumerate(progs) if p.get("tag", "").split("/")[0] in amlgen.FRAMED + ["template", "named_template"] and not p.get("summary")][::1 if th else 2]
     ctx.samples = [progs[0], progs[len(progs) // 2], progs[-1]]
     ctx.distinct = ac.distinct(progs)
     ac.mc_corpus(ctx, progs if th else progs[::4], pieces=12)
